@@ -183,6 +183,18 @@ def ob_prune_after_decision(run, oid):
     o = run.ob(oid, "the tracker prunes after every step that can decide slots: each handle_implicitly_finalized in add_parent and every handle_finalized_block is always followed by prune()",
                "a late parent link can close the gap between two directly finalized blocks: without the prune the watermark stays behind a fully decided prefix, whose votes and certificates "
                "are then still accepted and retained", floor=3)
+    # D28: ... and Pool::add_block itself - a block reconstructed for a slot below the watermark (any old leader can disseminate one at any time;
+    # shreds carry no slot window) must not bring a SlotState or a waiting-child entry back
+    famb = [b_ for b_ in prog.family("<" + PI + " as " + POOL + "Pool>::add_block") if b_.is_closure]
+    if not famb:
+        o.missing("Pool::add_block")
+    for b_ in famb:
+        ss_ = b_.calls_to(PI + "::slot_state")
+        ins_ = [c_ for c_ in b_.calls() if c_.name.endswith("BTreeMap::entry") and K.mentions_field(b_.operand_term(c_.args[0]), "s2n_waiting_parent_cert")]
+        for c_, key_ in K.ordinal_keys(ss_ + ins_, lambda c_: "Pool::add_block|%s" % ("slot_state" if c_ in ss_ else "s2n_waiting_parent_cert.entry")):
+            g = G.has_guard(prog, b_, c_.bb, pred="lt", polarity=False, calls=["first_unpruned_slot"])
+            o.check(g is not None, key_ + "|watermark", "per-slot state of the block's slot is only touched when !(slot < first_unpruned_slot())", c_.span,
+                    {"guards": K.show_atoms(prog, b_, c_.bb)[:4]})
     b = prog.body(FT + "::add_parent")
     if b is None:
         o.missing("FinalityTracker::add_parent")
